@@ -113,7 +113,7 @@ class TlcResult:
 
 
 def tlc(module, cfg, files=None, workers=None, timeout=600, simulate=None, seed=None,
-        extra_modules=(), depth=None, coverage=False, dfid=None, heap=None, keep_dir=None):
+        extra_modules=(), depth=None, coverage=False, dfid=None, heap=None, keep_dir=None, extra=None):
     """Run TLC on spec/<module>.tla with the given cfg text in a scratch copy of spec/."""
     wd = keep_dir or scratch("verif-tlc-")
     for f in os.listdir(SPEC):
@@ -121,6 +121,9 @@ def tlc(module, cfg, files=None, workers=None, timeout=600, simulate=None, seed=
             shutil.copy(os.path.join(SPEC, f), wd)
     with open(os.path.join(wd, module + ".cfg"), "w") as f:
         f.write(cfg)
+    for name, text in (extra or {}).items():
+        with open(os.path.join(wd, name), "w") as f:
+            f.write(text)
     for name, path in (files or {}).items():
         dst = os.path.join(wd, name)
         if os.path.abspath(path) != os.path.abspath(dst):
